@@ -1,14 +1,25 @@
 #!/usr/bin/env python3
-"""tools/mutant.py verify <dir>         : confirm a seeded change in a scratch worktree (baseline OK, demo 1/0)
-   tools/mutant.py run <dir> <Cxx> [tier]: apply <dir>/patch.diff to /repo, run ./check, undo; prints verdict."""
-import json, os, subprocess, sys, shutil, time
+"""Seeded-change tooling (never touches /repo: everything happens in a scratch worktree of /repo's HEAD).
+   tools/mutant.py keep <srcdir> <name> <Cxx> [tier] : verify (baseline OK, demo 0 at HEAD / 1 patched), run ./check <Cxx>
+                                                     against the patched worktree, store under /verif/seeded/<name>/
+   tools/mutant.py run <dir> <Cxx> [tier] [seed]     : only run the check against the patched worktree"""
+import json, os, subprocess, sys, shutil, time, tempfile
 
 def sh(cmd, **kw):
-    return subprocess.run(cmd, shell=isinstance(cmd, str), capture_output=True, text=True, **kw)
+    return subprocess.run(cmd, capture_output=True, text=True, **kw)
+
+def make_wt(tag):
+    wt = '/tmp/mut/wt-%s-%d' % (tag, os.getpid())
+    sh(['git', '-C', '/repo', 'worktree', 'add', '--detach', wt, 'HEAD'])
+    return wt
+
+def drop_wt(wt):
+    sh(['git', '-C', '/repo', 'worktree', 'remove', '--force', wt])
+    shutil.rmtree(wt, ignore_errors=True)
+    sh(['git', '-C', '/repo', 'worktree', 'prune'])
 
 def apply_patch(tree, patch):
-    r = sh(['git', '-C', tree, 'apply', '--check', patch])
-    if r.returncode == 0:
+    if sh(['git', '-C', tree, 'apply', '--check', patch]).returncode == 0:
         return sh(['git', '-C', tree, 'apply', patch]).returncode == 0, 'clean'
     r = sh(['git', '-C', tree, 'apply', '-3', patch])
     if r.returncode == 0:
@@ -17,48 +28,65 @@ def apply_patch(tree, patch):
     sh(['git', '-C', tree, 'reset', '-q', '--hard', 'HEAD'])
     return False, r.stderr[-300:]
 
-def verify(d):
-    d = os.path.abspath(d)
-    wt = '/tmp/mut/verify-%d' % os.getpid()
-    sh(['git', '-C', '/repo', 'worktree', 'add', '--detach', wt, 'HEAD'])
+def run_check(wt, pid, tier='quick', seed='0'):
+    tmp = tempfile.mkdtemp(prefix='mutrun-')
+    env = dict(os.environ, VERIF_REPO=wt, VERIF_EVIDENCE_DIR=tmp + '/ev', VERIF_REPLAY_DIR=tmp + '/rp')
+    t = time.time()
+    r = sh(['./check', pid, '--tier', tier, '--seed', seed], cwd='/verif', env=env, timeout=3600)
+    lines = [l for l in r.stdout.split('\n') if l.startswith(('VIOLATION', '  mechanism', 'INCONCLUSIVE', 'KNOWN'))]
+    shutil.rmtree(tmp, ignore_errors=True)
+    return {'check': pid, 'tier': tier, 'seed': int(seed), 'rc': r.returncode, 'wall_s': round(time.time() - t, 1), 'lines': lines[:6]}
+
+def keep(src, name, pid, tier='quick'):
+    src = os.path.abspath(src)
+    wt = make_wt(name)
     out = {}
     try:
         env = dict(os.environ, PYTHONPATH=wt + '/lib/python', PYTHONDONTWRITEBYTECODE='1')
-        r0 = sh(['/venv/bin/python', d + '/demo.py'], env=env, timeout=600)
-        out['demo_head'] = r0.returncode
-        ok, how = apply_patch(wt, d + '/patch.diff')
-        out['applies'] = how
-        if ok:
-            r1 = sh(['/venv/bin/python', d + '/demo.py'], env=env, timeout=600)
-            out['demo_patched'] = r1.returncode
-            out['demo_patched_tail'] = (r1.stdout + r1.stderr)[-300:]
-            b = sh(['python3', '/tmp/mut/baseline_check.py', wt], timeout=900)
-            out['baseline'] = b.stdout.strip().split('\n')[0][:200]
+        r0 = sh(['/venv/bin/python', src + '/demo.py'], env=env, timeout=900)
+        out['demo_exit_unchanged'] = r0.returncode
+        ok, how = apply_patch(wt, src + '/patch.diff')
+        out['patch_applies'] = how
+        if not ok:
+            print(json.dumps(out)); return
+        r1 = sh(['/venv/bin/python', src + '/demo.py'], env=env, timeout=900)
+        out['demo_exit_changed'] = r1.returncode
+        out['demo_output_changed_tail'] = (r1.stdout + r1.stderr)[-400:]
+        b = sh(['python3', '/tmp/mut/baseline_check.py', wt], timeout=1200)
+        out['baseline'] = b.stdout.strip().split('\n')[0][:200]
+        # store the patch as it applies to /repo HEAD
+        diff = sh(['git', '-C', wt, 'diff']).stdout
+        det = run_check(wt, pid, tier)
+        out['detection'] = det
     finally:
-        sh(['git', '-C', '/repo', 'worktree', 'remove', '--force', wt])
-        shutil.rmtree(wt, ignore_errors=True)
-    print(json.dumps(out))
-    return out
-
-def run(d, pid, tier='quick', seed='0'):
-    d = os.path.abspath(d)
-    assert sh(['git', '-C', '/repo', 'status', '--porcelain']).stdout.strip() == '', '/repo not clean'
-    ok, how = apply_patch('/repo', d + '/patch.diff')
-    if not ok:
-        print(json.dumps({'applies': how}))
-        return
-    try:
-        t = time.time()
-        r = sh(['./check', pid, '--tier', tier, '--seed', seed], cwd='/verif', timeout=3000)
-        lines = [l for l in r.stdout.split('\n') if l.startswith(('VIOLATION', '  mechanism', 'INCONCLUSIVE', 'KNOWN'))]
-        print(json.dumps({'applies': how, 'check': pid, 'rc': r.returncode, 'wall': round(time.time() - t, 1), 'lines': lines[:6]}))
-    finally:
-        sh(['git', '-C', '/repo', 'checkout', '--', '.'])
-        sh(['git', '-C', '/repo', 'clean', '-fdq', 'lib'])
-        sh(['git', '-C', '/verif', 'checkout', '--', 'evidence'])
+        drop_wt(wt)
+    dst = '/verif/seeded/' + name
+    os.makedirs(dst, exist_ok=True)
+    open(dst + '/patch.diff', 'w').write(diff)
+    shutil.copy(src + '/demo.py', dst + '/demo.py')
+    meta = {}
+    if os.path.exists(src + '/meta.json'):
+        try:
+            meta = json.load(open(src + '/meta.json'))
+        except Exception:
+            meta = {}
+    head = sh(['git', '-C', '/repo', 'log', '--format=%h', '-1']).stdout.strip()
+    meta.update({'property': pid, 'repo_head_when_confirmed': head,
+                 'confirmed': {'baseline_with_change': out.get('baseline'), 'demo_exit_unchanged': out['demo_exit_unchanged'],
+                               'demo_exit_changed': out.get('demo_exit_changed'), 'patch_applies': out['patch_applies'],
+                               'how': 'scratch worktree of /repo HEAD: demo.py run before and after git apply; pinned test-suite run with the change (tools/mutant.py keep)'},
+                 'detected_by': out.get('detection')})
+    json.dump(meta, open(dst + '/meta.json', 'w'), indent=1)
+    print(name, json.dumps({k: out[k] for k in out if k != 'demo_output_changed_tail'})[:600])
 
 if __name__ == '__main__':
-    if sys.argv[1] == 'verify':
-        verify(sys.argv[2])
+    if sys.argv[1] == 'keep':
+        keep(*sys.argv[2:])
     else:
-        run(*sys.argv[2:])
+        d, pid = sys.argv[2], sys.argv[3]
+        wt = make_wt('run')
+        try:
+            ok, how = apply_patch(wt, os.path.abspath(d) + '/patch.diff')
+            print(json.dumps(dict(applies=how, **(run_check(wt, pid, *sys.argv[4:]) if ok else {}))))
+        finally:
+            drop_wt(wt)
